@@ -124,8 +124,27 @@ theorem readN_flatMap {α : Type} (p : P α) (w : α → Bits) (xs : List α) (r
 
 /-! ### residuals -/
 
-/-- the residuals the RFC allows (the most negative 32-bit value is excluded) -/
-def resOk (r : Int) : Prop := -2147483648 < r ∧ r < 2147483648
+/-- the residuals a Rice code of the format can carry: the folded value fits 32 bits (the decoder accepts the most
+    negative 32-bit value too; the RFC forbids it and the encoder never produces it) -/
+def resOk (r : Int) : Prop := -2147483648 ≤ r ∧ r < 2147483648
+
+/-- `Flac.C01.fold_unfold` including the most negative value -/
+theorem fold_unfold' (k : Nat) (r : Int) (h0 : -2147483648 ≤ r) (h1 : r < 2147483648) :
+    unfoldRice k (foldRice r / 2 ^ k) (foldRice r % 2 ^ k) = r := by
+  have hfold : foldRice r < 4294967296 := by
+    unfold foldRice; split <;> omega
+  have hv : ((foldRice r : Nat) : Int) = if r < 0 then (-r - 1) * 2 + 1 else r * 2 := by
+    unfold foldRice; split <;> omega
+  unfold unfoldRice
+  rw [Flac.C01.join_split _ _ hfold]
+  generalize foldRice r = n at *
+  by_cases hodd : n % 2 = 1
+  · have : (n % 2 == 1) = true := by simp [hodd]
+    simp only [this, if_true]
+    split at hv <;> omega
+  · have : (n % 2 == 1) = false := by simp [hodd]
+    simp only [this]
+    split at hv <;> simp <;> omega
 
 theorem foldRice_lt (r : Int) (h : resOk r) : foldRice r < 4294967296 := by
   unfold foldRice resOk at *; split <;> omega
@@ -142,7 +161,7 @@ theorem readRiceOne_write (k : Nat) (r : Int) (rest : Bits) (h : resOk r) :
     have := foldRice_lt r h; omega
   rw [hov]
   simp only [Bool.false_eq_true, if_false]
-  rw [Flac.C01.fold_unfold k r h.1 h.2]
+  rw [fold_unfold' k r h.1 h.2]
 
 /-- a partition of `n` residuals is well-formed for a `pbits`-bit parameter field -/
 def partWf (pbits n : Nat) : Partition → Prop
